@@ -132,6 +132,26 @@ class C09Episode(Episode):
             if not (d['cause'] in ('exit', 'self') or
                     d['cause'].startswith('ext:')):
                 continue
+            if d['active'] and d['supervised'] and \
+                    w.checks_done >= d['mark'] + 1:
+                # the daemon had signalled it before (a kill request waiting
+                # out its grace period ...): no reap event is promised, but
+                # one that is published must carry the real status
+                d['judged'] = True
+                st = d['wstatus']
+                want = -(st & 0x7f) if (st & 0x7f) else (st >> 8) & 0xff
+                for e in [e for e in ev.get(pid, []) if e[1] == 'reap'][:1]:
+                    if e[2].get('exit_code') != want:
+                        self.viol('wrong_exit_code',
+                                  'worker %s (signalled by the daemon before, '
+                                  'died of something else) wait status %s: '
+                                  'reap event says exit_code=%r, expected %r'
+                                  % (pid, st, e[2].get('exit_code'), want),
+                                  removed_by=self.removal_site(pid),
+                                  signalled_before=True)
+                    else:
+                        self.probes['reap_code_checked_signalled_before'] += 1
+                continue
             if not d['active'] or d['supervised']:
                 continue
             if w.checks_done < d['mark'] + 1:
